@@ -303,6 +303,7 @@ func (te *TemplateEngine) processBlockOverrides(childTemplate, parentTemplate *T
 		if parentBlock, exists := parentTemplate.DefinedBlocks[blockName]; exists {
 			// 标记父模板块被重写
 			parentBlock.IsOverridden = true
+			verifPoint("template.blockOverride")
 			parentBlock.Content = childBlock.Content
 		}
 	}
@@ -320,6 +321,7 @@ func (te *TemplateEngine) RenderToDocument(templateName string, data *TemplateDa
 		return nil, WrapErrorWithContext("render_to_document", err, templateName)
 	}
 
+	verifPoint("template.afterGet")
 	// 创建新文档
 	var doc *Document
 	if template.BaseDoc != nil {
@@ -1780,6 +1782,7 @@ func (te *TemplateEngine) RenderTemplateToDocument(templateName string, data *Te
 		return nil, WrapErrorWithContext("render_template_to_document", err, templateName)
 	}
 
+	verifPoint("template.afterGet")
 	// 如果有基础文档，克隆它并在其上进行变量替换
 	if template.BaseDoc != nil {
 		doc := te.cloneDocument(template.BaseDoc)
